@@ -326,7 +326,7 @@ static void gen_union(fb_output_t *out)
     fprintf(out->fp,
         "#define __%sdefine_union_vector_field(NS, ID, N, NK, T, r)\\\n"
         "__## NS ## define_vector_field(ID - 1, N, NK ## _type, T ## _vec_t, r)\\\n"
-        "__## NS ## define_vector_field(ID, N, NK, flatbuffers_generic_vec_t, r)\\\n"
+        "__## NS ## define_vector_field(ID, N, NK, NS ## generic_vec_t, r)\\\n"
         "static inline T ## _union_vec_t N ## _ ## NK ## _union(N ## _table_t t__tmp)\\\n"
         "{ T ## _union_vec_t uv__tmp; uv__tmp.type = N ## _ ## NK ## _type_get(t__tmp);\\\n"
         "  uv__tmp.value = N ## _ ## NK(t__tmp);\\\n"
@@ -500,17 +500,19 @@ static void gen_helpers(fb_output_t *out)
                 "typedef flatbuffers_voffset_t %svoffset_t;\n"
                 "typedef flatbuffers_utype_t %sutype_t;\n"
                 "typedef flatbuffers_bool_t %sbool_t;\n"
+                "typedef flatbuffers_union_type_t %sunion_type_t;\n"
+                "typedef flatbuffers_thash_t %sthash_t;\n"
                 "\n",
-                nsc, nsc, nsc, nsc, nsc);
+                nsc, nsc, nsc, nsc, nsc, nsc, nsc);
         fprintf(out->fp,
                 "#define %sendian flatbuffers_endian\n"
-                "__flatcc_define_basic_scalar_accessors(%s, flatbuffers_endian)"
-                "__flatcc_define_integer_accessors(%sbool, flatbuffers_bool_t,\\\n"
-                "        FLATBUFFERS_BOOL_WIDTH, flatbuffers_endian)\\\n"
+                "__flatcc_define_basic_scalar_accessors(%s, flatbuffers_endian)\n"
+                "__flatcc_define_integer_accessors(%sbool, flatbuffers_bool_t,\n"
+                "        FLATBUFFERS_BOOL_WIDTH, flatbuffers_endian)\n"
                 "__flatcc_define_integer_accessors(%sunion_type, flatbuffers_union_type_t,\n"
-                "        FLATBUFFERS_UTYPE_WIDTH, flatbuffers_endian)\\\n",
+                "        FLATBUFFERS_UTYPE_WIDTH, flatbuffers_endian)\n"
                 "\n",
-                nsc, nsc, nsc);
+                nsc, nsc, nsc, nsc);
         fprintf(out->fp,
                 "__flatcc_define_integer_accessors(__%suoffset, flatbuffers_uoffset_t,\n"
                 "        FLATBUFFERS_UOFFSET_WIDTH, flatbuffers_endian)\n"
@@ -902,7 +904,7 @@ static void gen_helpers(fb_output_t *out)
             "/* If fid is null, the function returns true without testing as buffer is not expected to have any id. */\n"
             "static inline int %shas_identifier(const void *buffer, const char *fid)\n"
             "{ %sthash_t id, id2 = 0; if (fid == 0) { return 1; };\n"
-            "  id2 = %stype_hash_from_string(fid);\n"
+            "  id2 = flatbuffers_type_hash_from_string(fid);\n"
             "  id = __%sthash_read_from_pe(((%suoffset_t *)buffer) + 1);\n"
             "  return id2 == 0 || id == id2; }\n"
             "static inline int %shas_type_hash(const void *buffer, %sthash_t thash)\n"
@@ -910,7 +912,7 @@ static void gen_helpers(fb_output_t *out)
             "static inline %sthash_t %sget_type_hash(const void *buffer)\n"
             "{ return __%sthash_read_from_pe((flatbuffers_uoffset_t *)buffer + 1); }\n\n"
             "#define %sverify_endian() %shas_identifier(\"\\x00\\x00\\x00\\x00\" \"1234\", \"1234\")\n",
-            nsc, nsc, nsc, nsc, nsc, nsc, nsc, nsc, nsc, nsc, nsc, nsc, nsc, nsc);
+            nsc, nsc, nsc, nsc, nsc, nsc, nsc, nsc, nsc, nsc, nsc, nsc, nsc);
     fprintf(out->fp,
             "static inline void *%sread_size_prefix(void *b, size_t *size_out)\n"
             "{ if (size_out) { *size_out = (size_t)__%suoffset_read_from_pe(b); }\n"
